@@ -6,7 +6,7 @@ from hypothesis import strategies as st
 from core.outcome import Outcome, discard, observe
 from gen.selector_frames import build_frame, feature_names, selector_case
 from oracles.mapping import snapshot
-from oracles.selector import abs_corr, cramer_tschuprow, eta, kruskal_by, one_minus_r, prefilter_ok, validity
+from oracles.selector import abs_corr, cramer_tschuprow, eta, kruskal_by, one_minus_r, outlier_ok, prefilter_ok, validity, close
 
 PID = "C14"
 RULE = (
@@ -43,6 +43,9 @@ def strategy(tier):
                 "qual_measure": st.sampled_from(["default", "cramerv", "chi2+cramerv", "chi2+tschuprowt"]),
                 "quant_filter": st.sampled_from(["spearman", "spearman", "pearson"]),
                 "qual_filter": st.sampled_from(["tschuprowt", "cramerv"]),
+                # optional outlier pre-filter in front of the quantitative measures (classification only)
+                "outlier": st.sampled_from(["none", "none", "none", "zscore", "iqr"]),
+                "thresh_outlier": st.sampled_from([0.004, 0.02, 0.06, 0.3]),
             }
         ),
     ).map(lambda t: dict(t[0], config=t[1]))
@@ -69,6 +72,10 @@ def make_selector(case, quant, qual):
         elif cfg["qual_measure"] == "chi2+tschuprowt":
             kwargs["qualitative_measures"] = [S.chi2_measure, S.tschuprowt_measure]
             kwargs["thresh_chi2"] = 1e12
+    if not regression and cfg.get("outlier", "none") != "none":
+        first = S.zscore_measure if cfg["outlier"] == "zscore" else S.iqr_measure
+        kwargs["quantitative_measures"] = [first] + list(kwargs.get("quantitative_measures", [S.kruskal_measure]))
+        kwargs["thresh_zscore" if cfg["outlier"] == "zscore" else "thresh_iqr"] = cfg["thresh_outlier"]
     kwargs["quantitative_filters"] = [S.spearman_filter if cfg["quant_filter"] == "spearman" else S.pearson_filter]
     kwargs["qualitative_filters"] = [S.tschuprowt_filter if cfg["qual_filter"] == "tschuprowt" else S.cramerv_filter]
     klass = S.RegressionSelector if regression else S.ClassificationSelector
@@ -84,6 +91,8 @@ def reference_measures(case, X, y, quant, qual):
     for f in quant:
         if not prefilter_ok(X[f]):
             m[f] = float("nan")
+        elif not regression and cfg.get("outlier", "none") != "none" and not outlier_ok(X[f], cfg["outlier"], cfg["thresh_outlier"]):
+            m[f] = float("nan")  # too many outliers: the following measures are not evaluated, the feature is left out
         elif regression:
             m[f] = one_minus_r(X[f], y)
         elif cfg["quant_measure"] == "R":
@@ -167,7 +176,7 @@ def greedy(features, m, assoc, thresh, n_best):
     """Reference greedy filter on one measure. Returns (selection, ambiguous)."""
     defined = [f for f in features if not math.isnan(m[f])]
     order = sorted(defined, key=lambda f: -m[f])
-    ambiguous = any(abs(m[a] - m[b]) <= 1e-9 * max(1.0, abs(m[a])) for a, b in zip(order, order[1:]))
+    ambiguous = any(close(m[a], m[b]) for a, b in zip(order, order[1:]))
     kept = []
     for f in order:
         worst = 0.0
@@ -209,6 +218,8 @@ def check_case(case) -> Outcome:
     X, y = build_frame(case)
     quant, qual = feature_names(case, X)
     out.label(f"target:{case['target']['kind']}", f"thresh_corr:{cfg['thresh_corr']}")
+    if cfg.get("outlier", "none") != "none" and case["target"]["kind"] != "continuous":
+        out.label(f"outlier-prefilter:{cfg['outlier']}")
     made = observe(make_selector, case, quant, qual)
     if not made.ok:
         if isinstance(made.exc, AssertionError):
